@@ -97,26 +97,32 @@ Verifies(p) == \/ ~CheckMac
                   /\ (MacHasSeq => p.seq = rseq)
 Inflates(p) == ~cfg.zlib \/ (p.zid = rzid /\ p.zpos = rzpos)
 
+\* what read_message can do with packet p: "ok" = hand it up, "failed" = raise, "waiting" = block
+Accepts(p)  == p.whole /\ Verifies(p) /\ (p.kind = "newkeys" => Inflates(p) /\ ~p.dirty)
+\* the receiver's cipher state is where p was sealed, so it sees p's length field as it is on the wire
+Positioned(p) == p.epoch = repoch /\ p.seq = rseq
+Outcomes(p) == IF Accepts(p) THEN {"ok"}
+               ELSE IF Positioned(p) /\ p.lenok /\ p.whole THEN {"failed"}     \* right amount read, MAC / tag mismatch
+               ELSE IF Positioned(p) /\ p.intact /\ ~p.whole /\ Len(wire) = 1
+                    THEN {"waiting"}                                          \* the stream ends inside the packet
+               ELSE {"failed", "waiting"}    \* the length it sees is arbitrary: bad blocking, MAC mismatch over
+                                             \* whatever it read, or a wait for bytes that never come
 \* read_message returns only when read_all has collected the whole packet; the way it was split
 \* into socket reads does not matter (that is what the replay on the code tests)
 ReadMessage ==
     /\ rstate = "ok" /\ wire # <<>> /\ arrived >= Cells
     /\ LET p == Head(wire) IN
-         IF ~p.whole
-           THEN /\ rstate' = "waiting" /\ UNCHANGED <<rseq, repoch, rzid, rzpos, delivered>>
-         ELSE IF Verifies(p) /\ (p.kind = "newkeys" => Inflates(p) /\ ~p.dirty)
-           THEN /\ rseq'   = IF p.kind = "newkeys" /\ cfg.strict THEN 0 ELSE (rseq + 1) % SeqMod
-                /\ repoch' = IF p.kind = "newkeys" THEN repoch + 1 ELSE repoch
-                /\ rzid'   = IF p.kind = "newkeys" /\ cfg.zlib /\ FreshZIn THEN repoch + 1 ELSE rzid
-                /\ rzpos'  = IF ~cfg.zlib THEN rzpos
-                             ELSE IF p.kind = "newkeys" /\ FreshZIn THEN 0 ELSE rzpos + 1
-                /\ delivered' = IF p.kind = "data"
-                                  THEN Append(delivered, IF p.dirty \/ ~Inflates(p) THEN Alien ELSE p.mid)
-                                  ELSE delivered
-                /\ rstate' = "ok"
-           ELSE \* MAC / tag mismatch, bad blocking, or (length field changed) a wait for bytes that never come
-                /\ rstate' \in (IF p.lenok THEN {"failed"} ELSE {"failed", "waiting"})
-                /\ UNCHANGED <<rseq, repoch, rzid, rzpos, delivered>>
+         /\ rstate' \in Outcomes(p)
+         /\ IF Accepts(p)
+              THEN /\ rseq'   = IF p.kind = "newkeys" /\ cfg.strict THEN 0 ELSE (rseq + 1) % SeqMod
+                   /\ repoch' = IF p.kind = "newkeys" THEN repoch + 1 ELSE repoch
+                   /\ rzid'   = IF p.kind = "newkeys" /\ cfg.zlib /\ FreshZIn THEN repoch + 1 ELSE rzid
+                   /\ rzpos'  = IF ~cfg.zlib THEN rzpos
+                                ELSE IF p.kind = "newkeys" /\ FreshZIn THEN 0 ELSE rzpos + 1
+                   /\ delivered' = IF p.kind = "data"
+                                     THEN Append(delivered, IF p.dirty \/ ~Inflates(p) THEN Alien ELSE p.mid)
+                                     ELSE delivered
+              ELSE UNCHANGED <<rseq, repoch, rzid, rzpos, delivered>>
     /\ wire' = Tail(wire)
     /\ arrived' = arrived - Cells
     /\ UNCHANGED <<cfg, sent, svars, nsw, ntamper>>
@@ -132,14 +138,15 @@ Mark(p, r) == [p EXCEPT !.intact = FALSE,
 Lost(p)    == [p EXCEPT !.intact = FALSE, !.dirty = TRUE, !.lenok = FALSE]
 \* change the value of one byte in region r of packet i
 Flip(i, r)  == Untouched(i) /\ r \in Regions /\ Attack([wire EXCEPT ![i] = Mark(wire[i], r)])
-\* remove / add one byte inside packet i: the framing of everything behind it is lost as well
-DelByte(i)  == Untouched(i) /\ Attack([j \in 1..Len(wire) |-> IF j >= i THEN Lost(wire[j]) ELSE wire[j]])
+\* remove / add one byte inside packet i: its own framing is lost (and with it the framing of whatever is
+\* behind it when it is read - which no longer matters, because the receiver stops at this packet)
+DelByte(i)  == Untouched(i) /\ Attack([wire EXCEPT ![i] = Lost(wire[i])])
 InsByte(i)  == DelByte(i)
 Drop(i)     == Untouched(i) /\ Attack(SubSeq(wire, 1, i - 1) \o SubSeq(wire, i + 1, Len(wire)))
 Replay(i)   == Untouched(i) /\ Attack(SubSeq(wire, 1, i) \o <<wire[i]>> \o SubSeq(wire, i + 1, Len(wire)))
 Swap(i)     == Untouched(i) /\ i < Len(wire) /\ Attack([wire EXCEPT ![i] = wire[i + 1], ![i + 1] = wire[i]])
 \* the stream ends inside packet i
-Cut(i)      == Untouched(i) /\ Attack(Append(SubSeq(wire, 1, i - 1), [wire[i] EXCEPT !.whole = FALSE, !.intact = FALSE]))
+Cut(i)      == Untouched(i) /\ Attack(Append(SubSeq(wire, 1, i - 1), [wire[i] EXCEPT !.whole = FALSE]))
 
 Attacker == \E i \in 1..(NMsgs + MaxSwitch + 1) :
                \/ \E r \in Regions : Flip(i, r)
